@@ -3,8 +3,10 @@ import ZeepModel.Xsd.BindKw
 namespace Driver
 open Lean Zeep.BindKw
 
-/-! `bind.kw`: the keyword pass of `_process_signature` on a sequence of elements and non-repeating choices
-(`ZeepModel/Xsd/BindKw.lean`); values are null (None), "empty" (an empty collection) or {"leaf": text}. -/
+/-! `bind.kw`: the keyword pass of `_process_signature` on a sequence of elements and non-repeating choices whose branches are
+elements or sequences of elements (`ZeepModel/Xsd/BindKw.lean`); values are null (None), "empty" (an empty collection) or
+{"leaf": text}.  With `render` (the branches of one choice with the optional flag of every member, and whether the choice
+itself is optional) the reply also carries what `Choice.render` emits for that choice from the bound fields. -/
 
 def parseKwVal (j : Json) : R Val := do
   match j with
@@ -15,7 +17,7 @@ def parseKwVal (j : Json) : R Val := do
 def parseKwItem (j : Json) : R Item := do
   match (← str (← fld j "k")) with
   | "elem" => pure (.elem (← str (← fld j "name")))
-  | "choice" => pure (.choice (← listOf str (← fld j "branches")))
+  | "choice" => pure (.choice (← listOf (listOf str) (← fld j "branches")))
   | k => throw s!"bad kw item {k}"
 
 def jKwVal : Val → Json
@@ -29,8 +31,21 @@ def bindKw (j : Json) : R Json := do
   let kw ← listOf (fun kv => do
     let a ← arr kv
     pure ((← str (← at! a 0)), (← parseKwVal (← at! a 1)))) (← fld j "kw")
+  let jPairs := fun (l : List (String × Val)) => Json.arr (l.map fun kv => Json.arr #[Json.str kv.1, jKwVal kv.2]).toArray
+  let rend ← match j.getObjVal? "render" with
+    | .ok r => do
+      let bs ← listOf (listOf fun m => do pure (⟨← str (← fld m "name"), ← bool (← fld m "optional")⟩ : Member)) (← fld r "branches")
+      pure (some (bs, ← bool (← fld r "optional")))
+    | .error _ => pure none
   pure <| match processKw items attrs kw with
-  | .ok res => Json.mkObj [("fields", Json.arr (res.map fun kv => Json.arr #[Json.str kv.1, jKwVal kv.2]).toArray)]
+  | .ok res =>
+    let base := [("fields", jPairs res)]
+    match rend with
+    | none => Json.mkObj base
+    | some (bs, opt) =>
+      match renderChoice res bs opt with
+      | .ok out => Json.mkObj (base ++ [("rendered", jPairs out)])
+      | .error _ => Json.mkObj (base ++ [("rendered", Json.str "ValidationError")])
   | .error (.unexpectedKeyword k) => Json.mkObj [("error", Json.str "TypeError"), ("key", Json.str k)]
 
 end Driver
